@@ -143,7 +143,7 @@ def c15_3(ctx, r):
     for n in rcs:
         r.check((want, True) in guard_forms(ctx, fn, n, ALL_KINDS, kill=False) and dominated_by(ctx, fn, inc, [n]), "stored under the same sequence check, before the increment", key_of(fn, "return code guard"), fn.loc(n.ast), "return code stored without the sequence check / after the increment (wrong slot)")
     # first stage: assert stage_num == 1 on the return_code-is-None branch
-    asserts = [n for n in cfg.nodes if n.kind == "test" and isinstance(n.stmt, ast.Assert) and ctx.src(n.ast).replace(" ", "") == "stage_num==1"]
+    asserts = [n for n in cfg.nodes if n.kind == "test" and isinstance(n.stmt, ast.Assert) and ctx.src(n.ast).replace(" ", "") in ("stage_num==1", "1==stage_num")]
     okf = bool(asserts) and all(("return_code is None", True) in guard_forms(ctx, fn, n) for n in asserts)
     r.check(okf, "without a return code only stage 1 may be requested (assert)", key_of(fn, "first stage assert"), fn.loc(), "the first-stage path no longer asserts stage_num == 1", "stage k+1 ... only after stage k")
     # the stage that is configured and submitted
@@ -361,3 +361,10 @@ def c15_10(ctx, r):
         r.check(not later_inc and ctx.src(n.ast.value) == "str(self.stage_num)", "the exported stage id is the recorded stage, read after it advanced", key_of(m, "stage id exported before the stage advances"), m.loc(n.ast),
                 f"`{ctx.src(n.ast)}` in {m.short} is followed by the stage increment (directly or in a callee): the variable carries the previous stage's number, so an auto-config script keyed on it "
                 "configures stage k again as 'stage k+1' (stage k's jobs run twice, the last stage's never)", "stage k+1 is configured and submitted only after stage k's submission is complete, each stage is submitted exactly once")
+
+
+@rule(P, "C15.11", "T13", "a stage is complete only when every job is done (never from the counters alone)", min_obligations=2)
+def c15_11(ctx, r):
+    from .c03 import c03_4
+
+    c03_4(ctx, r)
